@@ -341,3 +341,97 @@ def rule_deps(ctx):
 
 
 RULES.append(("C18.h", "the times passed to synchronize never decrease: time writes are monotone (C01.g/i, C08.a)", rule_deps))
+
+
+def _rel_now_deadline(body, cond, now_key):
+    """what a comparison guard says about (now ? deadline): one of '<', '<=', '>', '>=' or None. now = result of the clock read,
+    deadline = the method's argument."""
+    from ..core import SWAP
+    NEG = {"<": ">=", "<=": ">", ">": "<=", ">=": "<"}
+    if cond.kind == "call":
+        callee, truth, site = cond.data[0], cond.data[1], cond.data[2]
+        nm = last_seg(callee)
+        op = {"le": "<=", "lt": "<", "ge": ">=", "gt": ">"}.get(nm)
+        if op is None or "PartialOrd" not in callee:
+            return None
+        a = body.origins(site.args()[0], site)
+        b = body.origins(site.args()[1], site)
+    elif cond.kind == "cmp":
+        op, a, b = cond.data[0], cond.data[1], cond.data[2]
+        truth = True
+        if op not in NEG:
+            return None
+    else:
+        return None
+    if not truth:
+        op = NEG[op]
+    if a == frozenset([now_key]) and b == frozenset([("arg", 2)]):
+        return op
+    if b == frozenset([now_key]) and a == frozenset([("arg", 2)]):
+        return SWAP[op]
+    return None
+
+
+def rule_builtin_clocks(ctx):
+    """The clocks shipped with the crate answer truthfully: SystemClock reports Synchronized only when the wall clock has not passed
+    the deadline (after sleeping until it) and otherwise OutOfSync carrying now - deadline; AutoSystemClock anchors itself on the
+    first deadline and from then on delegates the very deadline it was given. (What an arbitrary user clock answers is quantified
+    over by the property; these two are the ones a user gets without writing one.)"""
+    P = ctx.prog
+    b = ctx.body("<time::clock::SystemClock as time::clock::Clock>::synchronize")
+    if b is not None:
+        nows = list(b.calls(r"::now$"))
+        rets = [r for r in K.ret_assigns(b) if not r.is_term and r.node["r"]["r"] == "agg"]
+        ok = len(nows) == 1 and len(rets) >= 2
+        ctx.ob("system-clock|shape", ok, "one wall-clock read; results are built as SyncStatus values", nows + rets)
+        if ok:
+            nk = ("call", nows[0].b, nows[0].callee)
+            for r in rets:
+                v = r.node["r"].get("variant")
+                rels = [x for x in (_rel_now_deadline(b, c, nk) for c in b.conditions(r)) if x]
+                if v == "OutOfSync":
+                    okr = any(x in (">", ">=") for x in rels)
+                    lo = b.origins(r.node["r"]["ops"][0], r)
+                    okl = len(lo) == 1 and next(iter(lo))[0] == "call" and next(iter(lo))[2].endswith("::duration_since")
+                    if okl:
+                        d = Site(b, next(iter(lo))[1], TERM)
+                        okl = b.origins(d.args()[0], d) == frozenset([nk]) and b.origins(d.args()[1], d) == frozenset([("arg", 2)])
+                    ctx.ob("system-clock|out-of-sync-iff-deadline-passed", okr, "OutOfSync is reported only when the wall clock has passed the deadline", [r])
+                    ctx.ob("system-clock|lag-is-now-minus-deadline", okl, "the reported lag is now.duration_since(deadline)", [r])
+                elif v == "Synchronized":
+                    okr = any(x in ("<", "<=") for x in rels)
+                    sl = [s for s in b.calls(r"sleep$") if b.dominates(s, r)]
+                    oks = len(sl) == 1
+                    if oks:
+                        so = b.origins(sl[0].args()[0], sl[0])
+                        oks = len(so) == 1 and next(iter(so))[0] == "call" and next(iter(so))[2].endswith("::duration_since")
+                        if oks:
+                            d = Site(b, next(iter(so))[1], TERM)
+                            oks = b.origins(d.args()[0], d) == frozenset([("arg", 2)]) and b.origins(d.args()[1], d) == frozenset([nk])
+                    ctx.ob("system-clock|synchronized-iff-deadline-ahead", okr, "Synchronized is reported only when the deadline has not passed", [r])
+                    ctx.ob("system-clock|sleeps-until-deadline", oks, "before reporting Synchronized the clock sleeps for deadline.duration_since(now)", sl or [r])
+    a = ctx.body("<time::clock::AutoSystemClock as time::clock::Clock>::synchronize")
+    if a is not None:
+        dels = [s for s in a.calls(lambda c: c == K.CLOCK_SYNC)]
+        inits = list(a.calls(r"^time::clock::SystemClock::from_instant$"))
+        ok = len(dels) == 1 and len(inits) == 1
+        if ok:
+            d, i = dels[0], inits[0]
+            ok = a.origins(d.args()[1], d) == frozenset([("arg", 2)]) and d.node["dest"]["l"] == 0 and not d.node["dest"]["p"]
+            ro = a.origins(d.args()[0], d)
+            ok = ok and bool(ro) and all(origin_proj_names(x)[1][:1] == [("f", "inner")] or any(n == ("f", "inner") for n in origin_proj_names(x)[1]) for x in ro)
+            ok = ok and a.origins(i.args()[0], i) == frozenset([("arg", 2)])
+            wo = a.origins(i.args()[1], i)
+            ok = ok and len(wo) == 1 and next(iter(wo))[0] == "call" and next(iter(wo))[2] == "std::time::Instant::now"
+            # the two arms are selected by the state of `inner`
+            cd = [c for c in a.conditions(d) if c.kind == "variant" and "Some" in c.data[1] and not c.data[2]]
+            ci = [c for c in a.conditions(i) if c.kind == "variant" and "None" in c.data[1] and not c.data[2]]
+            ok = ok and bool(cd) and bool(ci)
+            # the anchored clock is stored into self.inner
+            st = [s for s in a.assigns() if s.node["p"]["p"] and s.node["p"]["l"] == 1 and a.dominates(i, s)]
+            ok = ok and len(st) == 1
+        ctx.ob("auto-clock|anchors-once-then-delegates-deadline", ok,
+               "AutoSystemClock anchors (deadline, Instant::now()) when it has no inner clock, stores it, and otherwise returns inner.synchronize(deadline)", dels + inits)
+
+
+RULES.append(("C18.i", "the built-in clocks answer truthfully (SystemClock: Synchronized / OutOfSync(now - deadline); AutoSystemClock delegates the deadline)", rule_builtin_clocks))
